@@ -898,6 +898,8 @@ fn acts_from(v: &Value) -> Vec<SAct> {
 struct SmtCfg {
     keys: Vec<W>,
     vals: Vec<W>,
+    /// value alphabet with the four words that have exactly one non-zero element
+    sparse: bool,
 }
 
 /// keys 0 and 1 share the leaf index (element 3 of the key word); key 2 lives in another leaf;
@@ -908,7 +910,18 @@ fn smt_cfg(nkeys: usize, seed: u64) -> SmtCfg {
     SmtCfg {
         keys: keys[..nkeys].to_vec(),
         vals: vec![[0; 4], [s + 1, s + 2, s + 3, s + 4], [s + 5, s + 6, s + 7, s + 8]],
+        sparse: false,
     }
+}
+
+/// the same keys with the values {EMPTY, v1} and the four words with exactly one non-zero element:
+/// a value is the empty word only if ALL its elements are zero, whichever element a test forgets
+fn smt_cfg_sparse(nkeys: usize, seed: u64) -> SmtCfg {
+    let mut c = smt_cfg(nkeys, seed);
+    let t = c.vals[2][0];
+    c.vals = vec![[0; 4], c.vals[1], [0, 0, 0, t], [0, 0, t, 0], [0, t, 0, 0], [t, 0, 0, 0]];
+    c.sparse = true;
+    c
 }
 
 impl SmtCfg {
@@ -996,7 +1009,7 @@ fn smt_program(acts: &[SAct]) -> Arc<Program> {
 /// Runs `acts` in ONE VM execution starting from the advice derived from the native tree reached by
 /// `base`, compares every returned (value, root) pair with the native tree. `mode` is only a label.
 fn smt_eval(ctx: &Ctx, cfg: &SmtCfg, hist: &Hist, mode: &str, base: &[SAct], acts: &[SAct], verbose: bool) {
-    let case = json!({"part": "smt", "mode": mode, "nkeys": cfg.keys.len(), "base": acts_json(base), "acts": acts_json(acts)});
+    let case = json!({"part": "smt", "mode": mode, "nkeys": cfg.keys.len(), "sparse_values": cfg.sparse, "base": acts_json(base), "acts": acts_json(acts)});
     let rep = Rep { ctx, verbose, case };
     let mut native = Smt::new();
     for a in base {
@@ -1440,7 +1453,7 @@ fn replay_case(ctx: &Ctx, case: &Value) {
         "mmr_arith" => println!("outcome class: {}", check_mmr_arith(ctx, &s("proc"), u(case, "x"), true)),
         "mmr_synth" => println!("outcome class: {}", check_mmr_synth(ctx, &s("op"), u(case, "num_leaves"), true)),
         "smt" => {
-            let cfg = smt_cfg(u(case, "nkeys") as usize, ctx.seed);
+            let cfg = if case["sparse_values"].as_bool() == Some(true) { smt_cfg_sparse(u(case, "nkeys") as usize, ctx.seed) } else { smt_cfg(u(case, "nkeys") as usize, ctx.seed) };
             smt_eval(ctx, &cfg, &hist, &s("mode"), &acts_from(&case["base"]), &acts_from(&case["acts"]), true);
             println!("outcome classes: {}", hist.json());
             if std::env::var("C18_TIMING").is_ok() {
@@ -1605,6 +1618,14 @@ pub fn run(ctx: &Ctx, replay: Option<&Value>) -> i32 {
         ctx.sample(json!({"part": "smt", "mode": "sequence", "nkeys": nk, "base": [], "acts": acts_json(&seqs[seqs.len() / 3])}));
         n_seqs += seqs.len();
         seq_desc.push(format!("all {} sequences of length {len} over the {} actions on {nk} keys", seqs.len(), seq_cfg.actions().len()));
+    }
+    // the same with the sparse value alphabet (keys 0 and 1 share a leaf)
+    for &(nk, len) in &tier.pick(vec![(2usize, 3usize)], vec![(2, 3), (1, 4)]) {
+        let seq_cfg = smt_cfg_sparse(nk, ctx.seed);
+        let seqs = mcx::space::tuples(&seq_cfg.actions(), len);
+        seqs.par_iter().for_each(|s| smt_eval(ctx, &seq_cfg, &seq_hist, "sequence", &[], s, false));
+        n_seqs += seqs.len();
+        seq_desc.push(format!("all {} sequences of length {len} over the {} actions on {nk} keys with the values {{EMPTY, v1, four words with one non-zero element}}", seqs.len(), seq_cfg.actions().len()));
     }
     lap("smt_sequences", &mut t);
 
